@@ -192,10 +192,9 @@ type Object struct {
 	bytes *ByteMem   // byte objects
 	label string
 	// lockset tracking
-	shared   bool
-	lockKeys map[string]bool
 	firstThr int
-	written  bool
+	cells    map[int]*lockCell
+	exempt   bool // allocated by harness code
 }
 
 type ByteMem struct {
@@ -374,12 +373,26 @@ func copyVal(v Value) Value {
 
 func (ex *Exec) newObject(t types.Type, v Value) *Object {
 	ex.nextObj++
-	return &Object{id: ex.nextObj, typ: t, val: v, firstThr: -1}
+	return &Object{id: ex.nextObj, typ: t, val: v, firstThr: -1, exempt: ex.allocExempt()}
+}
+
+// allocExempt: objects allocated by harness code are not subject to the lockset check.
+func (ex *Exec) allocExempt() bool {
+	if !ex.cfg.Lockset || ex.curInstr == nil || ex.curInstr.Parent() == nil {
+		return false
+	}
+	fn := ex.curInstr.Parent()
+	if v, ok := ex.harnessFn[fn]; ok {
+		return v
+	}
+	v := ex.isHarnessFn(fn)
+	ex.harnessFn[fn] = v
+	return v
 }
 
 func (ex *Exec) newByteObject(size *Term, init ByteSeq) *Object {
 	ex.nextObj++
-	o := &Object{id: ex.nextObj, firstThr: -1}
+	o := &Object{id: ex.nextObj, firstThr: -1, exempt: ex.allocExempt()}
 	o.bytes = &ByteMem{size: size}
 	if init != nil {
 		o.bytes.log = &LogEntry{kind: 0, src: init}
